@@ -146,11 +146,11 @@ CLASS_PRED = {
     # StripWhitespaceFilter._stripws_parenthesis indexes tokens[1] of a Parenthesis whose '(' was swallowed by
     # group_as / group_typecasts together with its neighbours
     'stripws-parenthesis-swallowed': lambda f: f.get('call') == 'format' and 'IndexError' in f.get('class', '')
-    and '_stripws_parenthesis' in f.get('site', '') and re.search(r'\(\s*(as\b|::)', _txt(f), re.I) is not None,
+    and '_stripws_parenthesis' in f.get('site', '') and re.search(r'\(\s*(as\b|::|:=)', _txt(f), re.I) is not None,
     # Function.get_window(): token_next_by returns the truthy tuple (None, None)
     'get-window-no-over': lambda f: f.get('class', '') == 'accessor:Function.get_window:AttributeError',
     # AlignedIndentFilter._process_case: a Case group without a proper END / with a nested Where
-    'aligned-case-end-missing': lambda f: f.get('call') == 'format' and 'ValueError' in f.get('class', '')
+    'aligned-case-end-swallowed': lambda f: f.get('call') == 'format' and 'ValueError' in f.get('class', '')
     and 'aligned_indent' in f.get('site', '') and f.get('options', {}).get('reindent_aligned')
     and re.search(r'\bcase\b', _txt(f), re.I) is not None,
 }
